@@ -138,6 +138,14 @@ Definition run_c19 (input : sexp) : sexp :=
                        if context_only fsl' asl' && reds_same then [of_atoms [CLASSTAG; 1901]]
                        else if cycle_only fsl' asl' && reds_same then [of_atoms [CLASSTAG; 1902]]
                        else if npm_depgraph_only fsl' asl' && reds_same then [of_atoms [CLASSTAG; 1903]]
+                       else if cycle_only fsl' asl' &&
+                               (* F-C19d: a chain longer than max_redirects entered at different points: the
+                                  one-sided TooManyRedirects entries are redirected further in the other graph,
+                                  and nothing else differs *)
+                               (match mode with
+                                | 0 => forallb (fun k => mem k (differing_keys fsl' asl')) (differing_keys frl arl)
+                                | _ => true end)
+                            then [of_atoms [CLASSTAG; 1904]]
                        else []))]
           | None => L [A 424242]
           end
